@@ -1641,6 +1641,8 @@ def check_symdel_pairs(r, rule, cd_modes):
             whole = head(v) == "item" and v[2] == 1 and head(strip(v[1])) in ("iter", "citer") and is_mcall(strip(strip(v[1])[-1]), "items") and nn.map_info(q, strip(strip(strip(v[1])[-1])[1])[1]) is not None
             if not whole and head(v) == "sub":
                 whole = nn.map_info(q, v[1]) is not None
+            if not whole and head(v) in ("iter", "citer") and is_mcall(strip(v[-1]), "values"):
+                whole = nn.map_info(q, strip(strip(v[-1])[1])[1]) is not None
         rep.ob(rule, q, ok_comb and whole, f"every unordered pair of distinct positions filed under a variant is examined once [{mname}]", w,
                expected="for i, j in combinations(values, 2) with values = the variant's whole position list", found=show(it, 80) if it is not None else show(a, 60), key=f"pairs {mname}")
         loops_ok = len([l for l in st.loops if l[0] is not None]) == 2
